@@ -159,6 +159,9 @@ def explore_c01(rng, tier, res, deep=False):
             cases.append(("$.k" + q[1:], {"k": v}))
             cases.append(("$[0]" + q[1:], [v]))
     sweep(res, BASE_ENV, cases, "C01", expect_valid=True)
+    import spec_examples
+
+    spec_examples.values_examples(res)  # the ORACLE against RFC 9535's own examples (validates the trusted Spec, not the code)
     if tier == "thorough":
         small_scope_c01(res)
 
@@ -264,6 +267,9 @@ def explore_c02(rng, tier, res, deep=False):
     sweep(res, PROBE_ENV, cases, "C02", expect_valid=True)
     reuse_after_edit(rng, res, PROBE_ENV, cases[:: max(1, len(cases) // (300 if tier == "quick" and not deep else 3000))], "C02")
     same_query_twice(rng, tier, res)
+    import spec_examples
+
+    spec_examples.values_examples(res)
 
 
 def same_query_twice(rng, tier, res):
@@ -536,6 +542,9 @@ def explore_c06(rng, tier, res, deep=False):
             cases.append((f"$[?@[?@ == {a}] && @[?@ == {b}]]", [tdoc, [1], [True], [0], [False]]))
     sweep(res, PROBE_ENV, cases, "C06", check_ast_iter=(tier != "thorough"), expect_valid=True)
     comparand_series(rng, tier, res)
+    import spec_examples
+
+    spec_examples.comparison_examples(res)
 
 
 def comparand_series(rng, tier, res):
